@@ -33,6 +33,9 @@ class C09(Check):
         folder = rng.random() < 0.6
         ops = []
         for k in range(rng.randint(1, 4)):
+            if k > 0 and rng.random() < 0.25:
+                # a batch fails (the model raises), the caller catches it and goes on with the same object
+                ops.append(["calibrate_fault", rng.randint(1, 3), rng.randint(0, 5)])
             if k > 0 and folder:
                 u = rng.random()
                 if u < 0.3:
